@@ -148,7 +148,7 @@ var reTagLine = regexp.MustCompile(`^T(\d+) (OK|NO|BAD)`)
 func runC10(h *H) {
 	imports := []string{"From GoImap.Base Require Import Bytes.", "From GoImap.Model Require Import ClientConn ClientConnCorr."}
 	corr := h.NewCorr("faults", imports, "cc_mismatches", 400).Type("cc_case")
-	h.Rule("for each operation of a corpus covering the client's blocking calls (NOOP, LOGIN, SELECT, LIST with Collect, FETCH with a body literal consumed through Next/LiteralReader, APPEND with a synchronising literal, IDLE start/Close, SEARCH, STATUS, EXPUNGE, STORE, COPY, AUTHENTICATE PLAIN, two pipelined commands) the scripted server's complete reply is cut at EVERY byte offset (quick tier: every offset for EOF, every 3rd for the others) with the fault EOF / read error / stall-until-the-client's-own-deadline (virtual time) / stall-until-Close, plus write errors at every offset of the client's output; the caller's blocking call, Client.Close and the exit of the client's goroutines are each guarded by a watchdog. Oracle: everything returns; a command whose tagged completion had not fully arrived reports an error. Model: the completed/failed status of every command equals the model's after the delivered response lines followed by the connection loss. Non-trivial = the cut falls before the final tagged line; distinct by (operation, fault, offset).")
+	h.Rule("for each operation of a corpus covering the client's blocking calls (NOOP, LOGIN, SELECT, LIST with Collect, FETCH with a body literal consumed through Next/LiteralReader, APPEND with a synchronising literal, IDLE start/Close, SEARCH, STATUS, EXPUNGE, STORE, COPY, AUTHENTICATE PLAIN, two pipelined commands, NOOP and a pipelined NOOP/FETCH/STATUS answered after an unsolicited BYE) the scripted server's complete reply is cut at EVERY byte offset (quick tier: every offset for EOF, every 3rd for the others) with the fault EOF / read error / stall-until-the-client's-own-deadline (virtual time) / stall-until-Close, plus write errors at every offset of the client's output; the caller's blocking call, Client.Close and the exit of the client's goroutines are each guarded by a watchdog. Oracle: everything returns; a command whose tagged completion had not fully arrived reports an error. Model: the completed/failed status of every command equals the model's after the delivered response lines followed by the connection loss. Non-trivial = the cut falls before the final tagged line; distinct by (operation, fault, offset).")
 
 	idleTag := ""
 	generic := func(p *scriptedPeer, c *peerCmd) {
@@ -186,8 +186,32 @@ func runC10(h *H) {
 			p.Send(c.Tag + " OK done\r\n")
 		}
 	}
+	// the server announces that it is going away (unsolicited BYE) in front of the first answer:
+	// a connection that then ends before a command's tagged response is still a failure for it
+	withBye := func(p *scriptedPeer, c *peerCmd) {
+		if c.Name == "NOOP" {
+			p.Send("* BYE server shutting down\r\n")
+		}
+		generic(p, c)
+	}
 	ops := []c10Op{
 		{"noop", func(c *imapclient.Client) error { return c.Noop().Wait() }, generic},
+		{"noop-bye", func(c *imapclient.Client) error { return c.Noop().Wait() }, withBye},
+		{"pipelined-bye", func(c *imapclient.Client) error {
+			a := c.Noop()
+			b := c.Fetch(imap.SeqSetNum(1, 2), &imap.FetchOptions{Flags: true})
+			d := c.Status("INBOX", &imap.StatusOptions{NumMessages: true})
+			e1 := a.Wait()
+			_, e2 := b.Collect()
+			_, e3 := d.Wait()
+			if e1 != nil {
+				return e1
+			}
+			if e2 != nil {
+				return e2
+			}
+			return e3
+		}, withBye},
 		{"login", func(c *imapclient.Client) error { return c.Login("u", "p").Wait() }, generic},
 		{"select", func(c *imapclient.Client) error { _, err := c.Select("INBOX", nil).Wait(); return err }, generic},
 		{"list", func(c *imapclient.Client) error { _, err := c.List("", "*", nil).Collect(); return err }, generic},
